@@ -13,6 +13,7 @@ def run(ctx, rep):
     numeric.r08k(ctx, rep)
     numeric.r08m(ctx, rep)
     numeric.r08n(ctx, rep)
+    numeric.r08p(ctx, rep)
     # R08f: the zero test the division procedures guard with
     sub = type(rep)(rep.prop)
     numeric.r09c(ctx, sub)
